@@ -3,6 +3,7 @@ CONSTANTS
   MinusFusion = TRUE
   ColonFusion = TRUE
   FuseAnyLiteral = TRUE
+  RawStringNames = TRUE
   DotAlways = TRUE
   Quick = TRUE
 INVARIANTS AsBuiltStrict
